@@ -350,7 +350,7 @@ func c04TokenMap(w *World, r *Report, gname, pkg, fwd, rev string) {
 	xp := w.Pkg("xpath/xutils")
 	xnames := map[int64]string{}
 	for _, n := range xp.Types.Scope().Names() {
-		if c, ok := xp.Types.Scope().Lookup(n).(*types.Const); ok && n == strings.ToUpper(n) && c.Val().Kind() == constant.Int {
+		if c, ok := scopeLookup(xp.Types.Scope(), n).(*types.Const); ok && n == strings.ToUpper(n) && c.Val().Kind() == constant.Int {
 			v, _ := constant.Int64Val(c.Val())
 			xnames[v] = n
 		}
@@ -876,7 +876,7 @@ func c04LookupTable(w *World, r *Report, lookup *types.Func) {
 		if ld, ok := a.v.(*ssa.UnOp); ok && ld.Op == token.MUL {
 			if fa, ok := ld.X.(*ssa.FieldAddr); ok && fromLookup(fa.X, 0) {
 				st := fa.X.Type().Underlying().(*types.Pointer).Elem().Underlying().(*types.Struct)
-				if st.Field(fa.Field).Name() == "custom" {
+				if nm(st.Field(fa.Field)) == "custom" {
 					return "custom"
 				}
 			}
@@ -959,7 +959,7 @@ func c04DecodedOnly(w *World, r *Report) {
 				// the pushed-back character
 				if fa, ok := x.X.(*ssa.FieldAddr); ok && x.Op == token.MUL {
 					st := fa.X.Type().Underlying().(*types.Pointer).Elem().Underlying().(*types.Struct)
-					if st.Field(fa.Field).Name() == "peek" {
+					if nm(st.Field(fa.Field)) == "peek" {
 						continue
 					}
 				}
